@@ -63,7 +63,7 @@ func genTrigDef(c *simkit.Chooser) *ref.TrigDef {
 	n := c.Intn(5, "n-preds")
 	for i := 0; i < n; i++ {
 		var p ref.TrigPredicate
-		switch c.Weighted([]int{4, 4, 3, 1}, "ref-kind") {
+		switch c.Weighted([]int{4, 4, 3, 2}, "ref-kind") {
 		case 0:
 			p.Offset = uint64(c.Intn(4, "topic"))
 		case 1:
@@ -73,6 +73,13 @@ func genTrigDef(c *simkit.Chooser) *ref.TrigDef {
 			p.Dynamic = true
 		case 3:
 			p.Offset = simkit.Pick(c, []uint64{0xffffffff, 0x100000000, 1 << 40, 3}, "odd-offset")
+			if c.Bool("aliasing-offset") {
+				// word indices whose byte position (index*32) collapses onto a word of the log data when
+				// computed in 32 or 64 bits, or whose index collapses when narrowed
+				j := uint64(c.Intn(6, "alias-word"))
+				k := uint64(1 + c.Intn(3, "alias-multiple"))
+				p.Offset = 4 + j + k*simkit.Pick(c, []uint64{1 << 27, 1 << 59, 1 << 31, 1 << 32, 1 << 16}, "alias-base")
+			}
 			p.Dynamic = c.Bool("odd-dynamic")
 		}
 		p.Op = uint64(c.Weighted([]int{2, 2, 3, 2, 2, 6, 1}, "op"))
